@@ -4,3 +4,6 @@ def encodedBytesB64 (n : Int) : Int := ((-(Int.fdiv (-n) (3 : Int))) * (4 : Int)
 def encodedBytesRaw (n : Int) : Int := n
 /-- _VTK_TYPE_TO_DTYPE: (VTK name, kind i/u/f, item size in bytes) -/
 def vtkTypes : List (String × String × Nat) := [("Int8", "i", 1), ("Int16", "i", 2), ("Int32", "i", 4), ("Int64", "i", 8), ("UInt8", "u", 1), ("UInt16", "u", 2), ("UInt32", "u", 4), ("UInt64", "u", 8), ("Float32", "f", 4), ("Float64", "f", 8)]
+/-- per value reader of VTKXMLReader (ascii / inline binary / appended): does the dtype handed to numpy
+    depend on the file's byte_order attribute?  (from the source text, helper methods followed) -/
+def vtkDtypeByteOrder : List (String × Bool) := [("ascii", false), ("binary", true), ("appended", true)]
